@@ -139,6 +139,29 @@ fn e<T, E: Debug>(r: Result<T, E>) -> Result<T, String> {
     r.map_err(|e| format!("{:?}", e))
 }
 
+/// W-TinyLFU / TinyLFU errors are identified by matching the variant (their Debug output is
+/// a human-readable message that may legitimately be reworded)
+fn ew<T>(r: Result<T, caches::lfu::WTinyLFUError>) -> Result<T, String> {
+    use caches::lfu::WTinyLFUError as E;
+    r.map_err(|e| match e {
+        E::InvalidCountMinWidth(v) => format!("InvalidCountMinWidth({})", v),
+        E::InvalidSamples(v) => format!("InvalidSamples({})", v),
+        E::InvalidWindowCacheSize(v) => format!("InvalidWindowCacheSize({})", v),
+        E::InvalidProbationaryCacheSize(v) => format!("InvalidProbationaryCacheSize({})", v),
+        E::InvalidProtectedCacheSize(v) => format!("InvalidProtectedCacheSize({})", v),
+        E::InvalidFalsePositiveRatio(v) => format!("InvalidFalsePositiveRatio({:?})", v),
+        E::Unknown => "Unknown".to_string(),
+    })
+}
+fn et<T>(r: Result<T, caches::lfu::TinyLFUError>) -> Result<T, String> {
+    use caches::lfu::TinyLFUError as E;
+    r.map_err(|e| match e {
+        E::InvalidCountMinWidth(v) => format!("InvalidCountMinWidth({})", v),
+        E::InvalidSamples(v) => format!("InvalidSamples({})", v),
+        E::InvalidFalsePositiveRatio(v) => format!("InvalidFalsePositiveRatio({:?})", v),
+    })
+}
+
 const SIZES: [usize; 10] = [0, 1, 2, 3, 4, 5, 7, 8, 100, 1 << 16];
 
 fn ratios() -> Vec<f64> {
@@ -199,19 +222,19 @@ fn fpr_bad(f: f64) -> bool {
 fn wt_expect(w: usize, t: usize, p: usize, samples: usize, fpr: f64) -> Expect {
     let mut errs = vec![];
     if w == 0 {
-        errs.push("invalid window cache size: 0".to_string());
+        errs.push("InvalidWindowCacheSize(0)".to_string());
     }
     if t == 0 {
-        errs.push("invalid protected cache size: 0".to_string());
+        errs.push("InvalidProtectedCacheSize(0)".to_string());
     }
     if p == 0 {
-        errs.push("invalid probationary cache size: 0".to_string());
+        errs.push("InvalidProbationaryCacheSize(0)".to_string());
     }
     if samples == 0 {
-        errs.push("invalid number of samples: 0".to_string());
+        errs.push("InvalidSamples(0)".to_string());
     }
     if fpr_bad(fpr) {
-        errs.push(format!("invalid false positive ratio: {}, which should be in range (0.0, 1.0)", fpr));
+        errs.push(format!("InvalidFalsePositiveRatio({:?})", fpr));
     }
     if errs.is_empty() {
         Expect::Ok
@@ -223,13 +246,13 @@ fn wt_expect(w: usize, t: usize, p: usize, samples: usize, fpr: f64) -> Expect {
 fn tiny_expect(size: usize, samples: usize, fpr: f64) -> Expect {
     let mut errs = vec![];
     if size == 0 {
-        errs.push("invalid count main sketch width: 0".to_string());
+        errs.push("InvalidCountMinWidth(0)".to_string());
     }
     if samples == 0 {
-        errs.push("invalid number of samples: 0".to_string());
+        errs.push("InvalidSamples(0)".to_string());
     }
     if fpr_bad(fpr) {
-        errs.push(format!("invalid false positive ratio: {}, which should be in range (0.0, 1.0)", fpr));
+        errs.push(format!("InvalidFalsePositiveRatio({:?})", fpr));
     }
     if errs.is_empty() {
         Expect::Ok
@@ -375,7 +398,7 @@ pub fn grid(out: &mut ShardOut) {
                 for &s in &[0usize, 1, 2, 3, 100] {
                     let args = format!("{}, {}, {}, {}", w, t, p, s);
                     let cls = format!("{}/{}/{}/s{}", sclass(w), sclass(t), sclass(p), sclass(s));
-                    g.case("WTinyLFUCache::with_sizes", args.clone(), &cls, wt_expect(w, t, p, s, 0.01), || e(WTinyLFUCache::<u32, u32>::with_sizes(w, t, p, s)), |c| poke(c));
+                    g.case("WTinyLFUCache::with_sizes", args.clone(), &cls, wt_expect(w, t, p, s, 0.01), || ew(WTinyLFUCache::<u32, u32>::with_sizes(w, t, p, s)), |c| poke(c));
                     for f in fprs() {
                         let args = format!("{}, {}, {}, {}, fpr {}", w, t, p, s, fnum(f));
                         let cls = format!("{}/{}/{}/s{}/fpr:{}", sclass(w), sclass(t), sclass(p), sclass(s), rclass(f));
@@ -385,7 +408,7 @@ pub fn grid(out: &mut ShardOut) {
                             &cls,
                             wt_expect(w, t, p, s, f),
                             || {
-                                e(WTinyLFUCacheBuilder::<u32, DynKH, DynBH, DynBH, DynBH>::with_hashers(DynKH(DynBH::new(HKind::Ident)), h(), h(), h())
+                                ew(WTinyLFUCacheBuilder::<u32, DynKH, DynBH, DynBH, DynBH>::with_hashers(DynKH(DynBH::new(HKind::Ident)), h(), h(), h())
                                     .set_window_cache_size(w)
                                     .set_protected_cache_size(t)
                                     .set_probationary_cache_size(p)
@@ -404,10 +427,10 @@ pub fn grid(out: &mut ShardOut) {
         for &s in &[0usize, 1, 10] {
             // size * 0.01 / 0.8 / 0.2 truncated: any of the three segments may come out as 0
             let (w, t, p) = (((n as f64) * 0.01) as usize, ((n as f64) * 0.8) as usize, ((n as f64) * (1f64 - 0.8)) as usize);
-            g.case("WTinyLFUCache::new", format!("{}, {}", n, s), &format!("{}/s{}", sclass(n), sclass(s)), wt_expect(w, t, p, s, 0.01), || e(WTinyLFUCache::<u32, u32>::new(n, s)), |c| poke(c));
+            g.case("WTinyLFUCache::new", format!("{}, {}", n, s), &format!("{}/s{}", sclass(n), sclass(s)), wt_expect(w, t, p, s, 0.01), || ew(WTinyLFUCache::<u32, u32>::new(n, s)), |c| poke(c));
         }
     }
-    g.case("WTinyLFUCache::from_builder(default)", "".into(), "0", wt_expect(0, 0, 0, 0, 0.01), || e(WTinyLFUCache::<u32, u32>::from_builder(WTinyLFUCache::<u32, u32>::builder())), |c| poke(c));
+    g.case("WTinyLFUCache::from_builder(default)", "".into(), "0", wt_expect(0, 0, 0, 0, 0.01), || ew(WTinyLFUCache::<u32, u32>::from_builder(WTinyLFUCache::<u32, u32>::builder())), |c| poke(c));
 
     // ---- TinyLFU
     for &n in &[0usize, 1, 2, 3, 100, 1 << 16, 1 << 20] {
@@ -436,13 +459,13 @@ pub fn grid(out: &mut ShardOut) {
                         t.increment_hashed_key(u64::MAX);
                     })
                 };
-                g.case("TinyLFU::new", args.clone(), &cls, ex.clone(), || e(TinyLFU::<u64>::new(n, s, f)), work);
+                g.case("TinyLFU::new", args.clone(), &cls, ex.clone(), || et(TinyLFU::<u64>::new(n, s, f)), work);
                 g.case(
                     "TinyLFUBuilder::finalize",
                     args.clone(),
                     &cls,
                     ex.clone(),
-                    || e(TinyLFUBuilder::<u64, DynKH>::with_hasher(DynKH(DynBH::new(HKind::Ident))).set_size(n).set_samples(s).set_false_positive_ratio(f).finalize()),
+                    || et(TinyLFUBuilder::<u64, DynKH>::with_hasher(DynKH(DynBH::new(HKind::Ident))).set_size(n).set_samples(s).set_false_positive_ratio(f).finalize()),
                     |t| {
                         guarded(|| {
                             for hh in [0u64, u64::MAX, 7] {
@@ -457,7 +480,7 @@ pub fn grid(out: &mut ShardOut) {
             }
         }
     }
-    g.case("TinyLFU::from_builder(default)", "".into(), "0", tiny_expect(0, 0, 0.01), || e(TinyLFU::<u64>::from_builder(TinyLFUBuilder::<u64>::default())), |_| Ok(()));
+    g.case("TinyLFU::from_builder(default)", "".into(), "0", tiny_expect(0, 0, 0.01), || et(TinyLFU::<u64>::from_builder(TinyLFUBuilder::<u64>::default())), |_| Ok(()));
 
     // ---- SampledLFU (no fallible constructor: must simply never panic)
     for &mc in &[i64::MIN / 4, -1, 0, 1, 100, i64::MAX / 4] {
